@@ -135,8 +135,15 @@ pub fn exec(mid: usize, op: &Op, lock: &BigLock) {
             });
         }
         Op::AddRef { kind, referent, root } => {
+            // References to immortal objects are not generated: mmtk-core documents that an
+            // immortal object answers is_live() = true even when unreachable, so such a reference
+            // is never cleared while its (untraced) referent's fields go stale.
             let ok = with_world(|w| {
-                !w.spec.cfg.no_reference_types && w.plan.collects && w.root_id(mid, *referent) != 0
+                let tid = w.root_id(mid, *referent);
+                !w.spec.cfg.no_reference_types
+                    && w.plan.collects
+                    && tid != 0
+                    && w.objs.get(&tid).map(|o| o.sem != SEM_IMMORTAL).unwrap_or(false)
             });
             if !ok {
                 return;
@@ -223,7 +230,7 @@ pub fn exec(mid: usize, op: &Op, lock: &BigLock) {
                     return None;
                 }
                 let id = w.root_id(mid, *root);
-                if id == 0 {
+                if id == 0 || w.objs.get(&id).map(|o| o.sem == SEM_IMMORTAL).unwrap_or(true) {
                     return None;
                 }
                 *w.fin_registered.entry(id).or_insert(0) += 1;
